@@ -135,10 +135,14 @@ def fam_put(nprov, rcs, version='1.36', ratio_fixed=None):
                 allocs[U(p)] = {'resources': res}
             cgen = ctx.int('req_cgen')
             gen_null = ctx.bool('req_cgen_null')
+            v = tuple(int(x) for x in version.split('.'))
             body = {'allocations': allocs, 'project_id': 'proj',
-                    'user_id': 'user',
-                    'consumer_generation': None if symex.fork(gen_null)
-                    else cgen}
+                    'user_id': 'user'}
+            if v >= (1, 28):
+                body['consumer_generation'] = None if symex.fork(gen_null) \
+                    else cgen
+            if v >= (1, 38):
+                body['consumer_type'] = 'INSTANCE'
             r = app.call('PUT', '/allocations/' + CONS(1), body,
                          version=version)
             post = w.dump()
@@ -147,8 +151,9 @@ def fam_put(nprov, rcs, version='1.36', ratio_fixed=None):
             elif r.status >= 500:
                 runner.violation(ctx, 'no-5xx', 'status %d' % r.status)
             return finish(ctx, str(r.status))
-    name = 'put-%dp-%s%s' % (nprov, '+'.join(rcs),
-                             '-ratio%s' % ratio_fixed if ratio_fixed else '')
+    name = 'put-%dp-%s%s@%s' % (nprov, '+'.join(rcs),
+                                '-ratio%s' % ratio_fixed if ratio_fixed
+                                else '', version)
     return Family(name, path, expect={'204', '409', '400'},
                   bounds=dict(providers=nprov, classes=list(rcs),
                               consumers='1 writer (new or existing), '
